@@ -57,7 +57,11 @@ Inductive stmt :=
 | SRaise (e : exn)                              (* raise E() *)
 | SSeq (a b : stmt)
 | STryExcept (b : stmt) (p : hpat) (h : stmt)   (* try: b  except P as e: C(e); h *)
-| STryFinally (b f : stmt).                     (* try: b  finally: f *)
+| STryFinally (b f : stmt)                      (* try: b  finally: f *)
+(* one context variable V; the caller sets it to "caller" before the call and resets it afterwards *)
+| SVarSet (n : nat)                             (* V.set(n) *)
+| SVarGet                                       (* R()  = trace.append(("var", V.get())) *)
+| SWithVar (n : nat) (b : stmt).                (* tok = V.set(n); try: b  finally: V.reset(tok) *)
 
 Definition exn_eqb (a b : exn) : bool :=
   match a, b with EKey, EKey | EValue, EValue | ECancelled, ECancelled => true | _, _ => false end.
@@ -96,25 +100,38 @@ Definition top (c : compl) : itree :=
 Definition recv (k : compl -> itree) (o : outcome) : itree :=
   match o with OVal v => Eff (t_got v) (k CNormal) | OExc e => k (CExc e) end.
 
-Fixpoint denote (s : stmt) (k : compl -> itree) : itree :=
+(* The context variable.  In both forms the body runs inside ONE context for its whole life (the
+   wrapper's `ctx_run = copy_context().run`, used by every Runner hop; the Task's own copied context),
+   so V behaves as state of the body: [denote] threads its current value [v] through the statements.
+   A nested native coroutine reads the value current at its call and leaves it unchanged for the
+   caller (`yield inner()` runs it in a Task = on a copy; `await inner()` inline: same as long as inner's
+   own writes are the balanced SWithVar -- an unbalanced SVarSet inside a nested body is outside the
+   grammar, see NOTES). *)
+Definition t_var (v : obs) : obs := OList [OTag "var"; v].
+Definition v_caller : obs := OTag "caller".
+
+Fixpoint denote (s : stmt) (v : obs) (k : compl -> obs -> itree) : itree :=
   match s with
-  | SSkip => k CNormal
-  | SMark n => Eff (t_mark n) (k CNormal)
-  | SYield y => Yld y (recv k)
-  | SCall b => Call (denote b top) (recv k)
-  | SReturn n => k (CRet (t_mark n))
-  | SRaise e => k (CExc e)
-  | SSeq a b => denote a (fun c => match c with CNormal => denote b k | _ => k c end)
+  | SSkip => k CNormal v
+  | SMark n => Eff (t_mark n) (k CNormal v)
+  | SYield y => Yld y (recv (fun c => k c v))
+  | SCall b => Call (denote b v (fun c _ => top c)) (recv (fun c => k c v))
+  | SReturn n => k (CRet (t_mark n)) v
+  | SRaise e => k (CExc e) v
+  | SSeq a b => denote a v (fun c v' => match c with CNormal => denote b v' k | _ => k c v' end)
   | STryExcept b p h =>
-      denote b (fun c => match c with
-                         | CExc e => if matches p e then Eff (t_caught e) (denote h k) else k c
-                         | _ => k c
-                         end)
+      denote b v (fun c v' => match c with
+                              | CExc e => if matches p e then Eff (t_caught e) (denote h v' k) else k c v'
+                              | _ => k c v'
+                              end)
   | STryFinally b f =>
-      denote b (fun c => denote f (fun cf => match cf with CNormal => k c | _ => k cf end))
+      denote b v (fun c v' => denote f v' (fun cf v'' => match cf with CNormal => k c v'' | _ => k cf v'' end))
+  | SVarSet n => k CNormal (t_mark n)
+  | SVarGet => Eff (t_var v) (k CNormal v)
+  | SWithVar n b => denote b (t_mark n) (fun c _ => k c v)       (* reset(tok) restores the value seen at set() *)
   end.
 
-Definition body (p : stmt) : itree := denote p top.
+Definition body (p : stmt) : itree := denote p v_caller (fun c _ => top c).
 
 (* ------------------------------------------------------------------ *)
 (* Futures of the environment, multi                                   *)
